@@ -29,6 +29,7 @@ struct R : Runner {
 	}
 	std::string run(int op, const std::vector<std::string>& a) override {
 		return guarded([&]() -> std::string {
+			if (op == OP_limits) return limits_of<T, Tr>(true);
 			if (op >= OP_from_f32 && op <= OP_to_f80) return native_conv<T, Tr>(op, a);
 			T x = Tr::mk(a[0]);
 			switch (op) {
@@ -58,6 +59,7 @@ struct R : Runner {
 		});
 	}
 	void extra(const std::string& ha, Rng& g, const std::function<void(int, std::vector<std::string>)>& emit) override {
+		if (g_group == "cmp" && ha.find_first_not_of('0') == std::string::npos) emit(OP_limits, {});
 		if (g_group == "arith") {
 			if (small) {
 				for (int k = -(int)N - 1; k <= (int)N + 1; ++k) { emit(OP_shl, {ha, hex64(k + SHIFT_BIAS)}); emit(OP_shr, {ha, hex64(k + SHIFT_BIAS)}); }
